@@ -585,3 +585,24 @@ pub fn imp_rule(p: Prof, k: RuleKind, s: &str) -> RRes {
         Prof::Nick => rule_on(&Nickname::new(), k, s),
     })
 }
+
+fn rule_on_owned<R: Rules>(r: &R, k: RuleKind, s: String) -> Result<Cow<'static, str>, Error> {
+    match k {
+        RuleKind::Width => r.width_mapping_rule(s),
+        RuleKind::Additional => r.additional_mapping_rule(s),
+        RuleKind::Case => r.case_mapping_rule(s),
+        RuleKind::Norm => r.normalization_rule(s),
+        RuleKind::Dir => r.directionality_rule(s),
+    }
+}
+/// the same rule with an OWNED argument that has spare capacity (in-place fast paths)
+pub fn imp_rule_owned(p: Prof, k: RuleKind, s: &str) -> RRes {
+    let mut o = String::with_capacity(s.len() * 3 + 129);
+    o.push_str(s);
+    obs(&match p {
+        Prof::UserMapped => rule_on_owned(&UsernameCaseMapped::new(), k, o),
+        Prof::UserPreserved => rule_on_owned(&UsernameCasePreserved::new(), k, o),
+        Prof::Opaque => rule_on_owned(&OpaqueString::new(), k, o),
+        Prof::Nick => rule_on_owned(&Nickname::new(), k, o),
+    })
+}
